@@ -3,6 +3,7 @@ package c18
 import (
 	"bytes"
 	"fmt"
+	"strings"
 
 	"github.com/buildbarn/go-xdr/pkg/protocols/nfsv4"
 )
@@ -106,10 +107,24 @@ type openParams struct {
 	how       int
 	claim     int
 	delegType int    // CLAIM_PREVIOUS: index into delegTypes
+	slot      int    // 4.1: session slot to use
+	then      int    // 4.1: operation that follows in the same compound and uses the current state ID
 	seqDelta  uint32 // added to the correct open-owner seqid (4.0)
 	clientID  *uint64
 	variant   string
 }
+
+// Operations that may follow OPEN in the same NFSv4.1 compound, using
+// the current state ID that OPEN leaves behind.
+const (
+	thenNothing = iota
+	thenRead
+	thenWrite
+	thenClose
+	thenDowngradeToRead
+)
+
+var thenNames = [...]string{"", "READ", "WRITE", "CLOSE", "OPEN_DOWNGRADE"}
 
 // open sends OPEN (+GETFH) and applies its outcome to the model.
 func (h *hist) open(c *client, p openParams) *openState {
@@ -158,8 +173,15 @@ func (h *hist) open(c *client, p openParams) *openState {
 		default:
 			return nfsv4.NFS4ERR_INVAL
 		}
-		if c.ver == 1 && p.how == howExclusive {
+		switch p.how {
+		case howUncheckedBadAttr, howGuardedBadAttr:
+			return nfsv4.NFS4ERR_ATTRNOTSUPP
+		case howExclusive41:
 			return nfsv4.NFS4ERR_INVAL
+		case howExclusive:
+			if c.ver == 1 {
+				return nfsv4.NFS4ERR_INVAL
+			}
 		}
 		noExisting := p.how == howGuarded || p.how == howExclusive
 		openSelf := func(l *fakeLeaf) nfsv4.Nfsstat4 {
@@ -179,6 +201,9 @@ func (h *hist) open(c *client, p openParams) *openState {
 			}
 			if p.name == "" {
 				return nfsv4.NFS4ERR_INVAL
+			}
+			if p.name == "." || p.name == ".." || strings.ContainsAny(p.name, "/\x00") {
+				return nfsv4.NFS4ERR_BADNAME
 			}
 			l := w.root.lookupLeaf(p.name)
 			if l != nil {
@@ -263,7 +288,7 @@ func (h *hist) open(c *client, p openParams) *openState {
 	if p.claim == claimPrevious {
 		desc += " delegate_type=" + delegNames[p.delegType]
 	}
-	rr := h.send(c, desc, p.fh, 0,
+	ops := []nfsv4.NfsArgop4{
 		&nfsv4.NfsArgop4_OP_OPEN{Opopen: nfsv4.Open4args{
 			Seqid:       seq,
 			ShareAccess: p.access,
@@ -273,8 +298,54 @@ func (h *hist) open(c *client, p openParams) *openState {
 			Claim:       buildClaim(p.claim, p.name, p.delegType),
 		}},
 		&nfsv4.NfsArgop4_OP_GETFH{},
-	)
+	}
+	// The open state that a following CLOSE or OPEN_DOWNGRADE would
+	// end or narrow may exist already (re-OPEN): its entitlement ends
+	// when the request is sent.
+	var preExisting *openState
+	if c.ver != 1 {
+		p.then = thenNothing
+	}
+	if p.then != thenNothing {
+		desc += " then " + thenNames[p.then] + " with the current state ID"
+		switch p.then {
+		case thenRead:
+			ops = append(ops, &nfsv4.NfsArgop4_OP_READ{Opread: nfsv4.Read4args{Stateid: currentStateID, Count: 8}})
+		case thenWrite:
+			ops = append(ops, &nfsv4.NfsArgop4_OP_WRITE{Opwrite: nfsv4.Write4args{Stateid: currentStateID, Stable: nfsv4.FILE_SYNC4, Data: []byte{7}}})
+		case thenClose:
+			ops = append(ops, &nfsv4.NfsArgop4_OP_CLOSE{Opclose: nfsv4.Close4args{OpenStateid: currentStateID}})
+		case thenDowngradeToRead:
+			ops = append(ops, &nfsv4.NfsArgop4_OP_OPEN_DOWNGRADE{OpopenDowngrade: nfsv4.OpenDowngrade4args{OpenStateid: currentStateID, ShareAccess: nfsv4.OPEN4_SHARE_ACCESS_READ}})
+		}
+		if o != nil && want[0] == nfsv4.NFS4_OK && target != nil {
+			preExisting = o.opens[target]
+		}
+		if preExisting != nil {
+			switch p.then {
+			case thenClose:
+				preExisting.setHeld(0)
+				for _, ls := range preExisting.locks {
+					ls.setHeld(0)
+				}
+			case thenDowngradeToRead:
+				preExisting.setHeld(preExisting.held & accRead)
+			}
+		}
+		h.allowTrailingFailure = true
+	}
+	rr := h.send(c, desc, p.fh, p.slot, ops...)
+	h.allowTrailingFailure = false
+	restorePreExisting := func() {
+		if preExisting != nil && !preExisting.closed {
+			preExisting.setHeld(preExisting.wantHeld())
+			for _, ls := range preExisting.locks {
+				ls.setHeld(ls.access)
+			}
+		}
+	}
 	if !rr.ok {
+		restorePreExisting()
 		return nil
 	}
 	h.expect(c, "OPEN", p.variant, rr.st, want...)
@@ -298,6 +369,7 @@ func (h *hist) open(c *client, p openParams) *openState {
 		}
 	}
 	if rr.st != nfsv4.NFS4_OK {
+		restorePreExisting()
 		if rr.st == nfsv4.NFS4ERR_RECLAIM_BAD && want[0] == nfsv4.NFS4ERR_RECLAIM_BAD && p.claim == claimPrevious {
 			// The refused reclaim must leave nothing behind: the
 			// balance and count oracles that run after this step
@@ -356,7 +428,7 @@ func (h *hist) open(c *client, p openParams) *openState {
 		if p.claim == claimPrevious {
 			h.sit("claim-previous")
 		}
-		return os
+		return h.afterOpenThen(c, p, rr, os)
 	}
 	if sid.Seqid != 1 {
 		w.violation(fmt.Sprintf("new-open-state-id-seqid v=4.%d", c.ver), fmt.Sprintf("%s %s: new open state ID %s does not start at seqid 1", c, desc, sidString(sid)))
@@ -390,7 +462,56 @@ func (h *hist) open(c *client, p openParams) *openState {
 	if h.modelOpenCount(leaf) > 1 {
 		h.sit("file-open-by-several-owners")
 	}
-	return os
+	return h.afterOpenThen(c, p, rr, os)
+}
+
+// afterOpenThen judges and applies the operation that followed a
+// successful OPEN in the same compound and used the current state ID.
+func (h *hist) afterOpenThen(c *client, p openParams, rr reqResult, os *openState) *openState {
+	if p.then == thenNothing {
+		return os
+	}
+	// OPEN and GETFH succeeded, so the compound's status is that of
+	// the last operation.
+	st := rr.res.Status
+	op := thenNames[p.then]
+	h.sit("current-state-id-used-after-open")
+	switch p.then {
+	case thenRead, thenWrite:
+		want, bit := nfsv4.NFS4_OK, accRead
+		if p.then == thenWrite {
+			bit = accWrite
+		}
+		if os.access&bit == 0 {
+			want = nfsv4.NFS4ERR_OPENMODE
+		}
+		h.expect(c, op, "current-state-id", st, want)
+		return os
+	case thenClose:
+		if !h.expect(c, op, "current-state-id", st, nfsv4.NFS4_OK) {
+			return os
+		}
+		h.applyClose(c, os)
+		return nil
+	default:
+		want := nfsv4.NFS4_OK
+		if os.access&accRead == 0 {
+			want = nfsv4.NFS4ERR_INVAL
+		}
+		if !h.expect(c, op, "current-state-id", st, want) || st != nfsv4.NFS4_OK {
+			os.setHeld(os.wantHeld())
+			return os
+		}
+		r0, _ := findRes[*nfsv4.NfsResop4_OP_OPEN_DOWNGRADE](rr.res)
+		got := r0.OpopenDowngrade.(*nfsv4.OpenDowngrade4res_NFS4_OK).Resok4.OpenStateid
+		os.sid.Seqid = nextSeq(os.sid.Seqid)
+		if got != os.sid {
+			h.w.violation("state-id-sequence-mismatch op=OPEN_DOWNGRADE", fmt.Sprintf("%s: got %s want %s", c, sidString(got), sidString(os.sid)))
+		}
+		os.access = accRead
+		os.setHeld(os.wantHeld())
+		return os
+	}
 }
 
 func (h *hist) reindexOpen(os *openState, sid nfsv4.Stateid4) {
@@ -555,6 +676,11 @@ func (h *hist) closeState(c *client, sid nfsv4.Stateid4, fh fhRef, seqDelta uint
 	if h.ioInFlightOn(os) {
 		h.sit("io-in-flight-across-close")
 	}
+	h.applyClose(c, os)
+}
+
+// applyClose removes an open state that the server confirmed closed.
+func (h *hist) applyClose(c *client, os *openState) {
 	for _, ls := range os.locks {
 		h.closed = append(h.closed, closedRef{c: c, sid: ls.sid, leaf: os.leaf, lock: true})
 	}
@@ -563,12 +689,12 @@ func (h *hist) closeState(c *client, sid nfsv4.Stateid4, fh fhRef, seqDelta uint
 	oldSid := os.sid
 	h.forgetOpen(os)
 	delete(owner.opens, os.leaf)
-	if c.ver == 0 {
+	if owner.c.ver == 0 {
 		os.sid = oldSid
 		h.closed40[oldSid.Other] = os
 		owner.closedPending = os
 	} else if len(owner.opens) == 0 {
-		delete(c.owners, owner.key)
+		delete(owner.c.owners, owner.key)
 	}
 }
 
@@ -684,7 +810,11 @@ type lockParams struct {
 	openSeqDelta uint32
 	lockSeqDelta uint32
 	clientID     *uint64
-	variant      string
+	badLockType  bool
+	// 4.1: LOCKU of the same range with the current state ID follows
+	// in the same compound.
+	thenUnlockCurrent bool
+	variant           string
 }
 
 func (h *hist) lock(c *client, p lockParams) *lockState {
@@ -796,7 +926,7 @@ func (h *hist) lock(c *client, p lockParams) *lockState {
 		// Whether the range conflicts with another owner's lock is
 		// property C20's business: follow the reply.
 		want = []nfsv4.Nfsstat4{nfsv4.NFS4_OK, nfsv4.NFS4ERR_DENIED}
-		if p.rangeIdx == invalidRange {
+		if rangeIsInvalid(p.rangeIdx) || p.badLockType {
 			want = []nfsv4.Nfsstat4{nfsv4.NFS4ERR_INVAL}
 		}
 	}
@@ -806,6 +936,9 @@ func (h *hist) lock(c *client, p lockParams) *lockState {
 	lt := nfsv4.READ_LT
 	if p.write {
 		lt = nfsv4.WRITE_LT
+	}
+	if p.badLockType {
+		lt = nfsv4.NfsLockType4(9)
 	}
 	clientID := c.clientID()
 	if p.clientID != nil {
@@ -824,9 +957,19 @@ func (h *hist) lock(c *client, p lockParams) *lockState {
 		desc = fmt.Sprintf("LOCK locksid=%s fh=%s range=%d write=%v lockseq=%d (%s)", sidString(p.lockSid), p.fh, p.rangeIdx, p.write, lockSeq, p.variant)
 	}
 	rg := lockRanges[p.rangeIdx]
-	rr := h.send(c, desc, p.fh, 0, &nfsv4.NfsArgop4_OP_LOCK{Oplock: nfsv4.Lock4args{
+	ops := []nfsv4.NfsArgop4{&nfsv4.NfsArgop4_OP_LOCK{Oplock: nfsv4.Lock4args{
 		Locktype: lt, Offset: rg.off, Length: rg.len, Locker: locker,
-	}})
+	}}}
+	if c.ver != 1 {
+		p.thenUnlockCurrent = false
+	}
+	if p.thenUnlockCurrent {
+		desc += " then LOCKU with the current state ID"
+		ops = append(ops, &nfsv4.NfsArgop4_OP_LOCKU{Oplocku: nfsv4.Locku4args{Locktype: lt, LockStateid: currentStateID, Offset: rg.off, Length: rg.len}})
+		h.allowTrailingFailure = true
+	}
+	rr := h.send(c, desc, p.fh, 0, ops...)
+	h.allowTrailingFailure = false
 	if !rr.ok {
 		return nil
 	}
@@ -875,7 +1018,7 @@ func (h *hist) lock(c *client, p lockParams) *lockState {
 		}
 		ls.sid = got
 		ls.ranges[p.rangeIdx] = true
-		return ls
+		return h.afterLockThen(c, p, rr, ls)
 	}
 	if lo == nil {
 		lo = lc.getLockOwner(p.loKey)
@@ -912,6 +1055,29 @@ func (h *hist) lock(c *client, p lockParams) *lockState {
 	if len(lo.states) > 1 {
 		h.sit("lock-owner-on-several-files")
 	}
+	return h.afterLockThen(c, p, rr, ls)
+}
+
+// afterLockThen judges and applies the LOCKU that followed a granted
+// LOCK in the same compound and used the current state ID.
+func (h *hist) afterLockThen(c *client, p lockParams, rr reqResult, ls *lockState) *lockState {
+	if !p.thenUnlockCurrent {
+		return ls
+	}
+	h.sit("current-state-id-used-after-lock")
+	if !h.expect(c, "LOCKU", "current-state-id", rr.res.Status, nfsv4.NFS4_OK) {
+		return ls
+	}
+	r0, ok := findRes[*nfsv4.NfsResop4_OP_LOCKU](rr.res)
+	if !ok {
+		return ls
+	}
+	got := r0.Oplocku.(*nfsv4.Locku4res_NFS4_OK).LockStateid
+	ls.sid.Seqid = nextSeq(ls.sid.Seqid)
+	if got != ls.sid {
+		h.w.violation("state-id-sequence-mismatch op=LOCKU", fmt.Sprintf("%s: got %s want %s", c, sidString(got), sidString(ls.sid)))
+	}
+	delete(ls.ranges, p.rangeIdx)
 	return ls
 }
 
@@ -944,7 +1110,7 @@ func (h *hist) unlock(c *client, sid nfsv4.Stateid4, fh fhRef, rangeIdx int, seq
 		return st
 	}
 	want := predict()
-	if want == nfsv4.NFS4_OK && rangeIdx == invalidRange {
+	if want == nfsv4.NFS4_OK && rangeIsInvalid(rangeIdx) {
 		want = nfsv4.NFS4ERR_INVAL
 	}
 	rg := lockRanges[rangeIdx]
@@ -1211,16 +1377,16 @@ func (h *hist) probe(c *client, l *fakeLeaf) {
 
 // lockt sends LOCKT. It creates no state; in NFSv4.0 it takes and
 // releases a hold on the client record.
-func (h *hist) lockt(c *client, fh fhRef, loKey string, rangeIdx int, write bool) {
+func (h *hist) lockt(c *client, fh fhRef, loKey string, rangeIdx int, write, staleClientID bool) {
 	var want []nfsv4.Nfsstat4
 	switch {
 	case fh.kind == 0:
 		want = []nfsv4.Nfsstat4{nfsv4.NFS4ERR_NOFILEHANDLE}
 	case fh.kind == 1:
 		want = []nfsv4.Nfsstat4{nfsv4.NFS4ERR_ISDIR}
-	case c.ver == 0 && c.cur == nil:
+	case c.ver == 0 && (c.cur == nil || staleClientID):
 		want = []nfsv4.Nfsstat4{nfsv4.NFS4ERR_STALE_CLIENTID}
-	case rangeIdx == invalidRange:
+	case rangeIsInvalid(rangeIdx):
 		want = []nfsv4.Nfsstat4{nfsv4.NFS4ERR_INVAL}
 	default:
 		want = []nfsv4.Nfsstat4{nfsv4.NFS4_OK, nfsv4.NFS4ERR_DENIED}
@@ -1230,10 +1396,14 @@ func (h *hist) lockt(c *client, fh fhRef, loKey string, rangeIdx int, write bool
 		lt = nfsv4.WRITE_LT
 	}
 	rg := lockRanges[rangeIdx]
+	clientID := c.clientID()
+	if staleClientID {
+		clientID = h.unconfirmedOrUnknownClientID(c)
+	}
 	rr := h.send(c, fmt.Sprintf("LOCKT owner=%s fh=%s range=%d write=%v", loKey, fh, rangeIdx, write), fh, 0,
 		&nfsv4.NfsArgop4_OP_LOCKT{Oplockt: nfsv4.Lockt4args{
 			Locktype: lt, Offset: rg.off, Length: rg.len,
-			Owner: nfsv4.LockOwner4{Clientid: c.clientID(), Owner: []byte(loKey)},
+			Owner: nfsv4.LockOwner4{Clientid: clientID, Owner: []byte(loKey)},
 		}})
 	if !rr.ok {
 		return
@@ -1241,4 +1411,39 @@ func (h *hist) lockt(c *client, fh fhRef, loKey string, rangeIdx int, write bool
 	h.expect(c, "LOCKT", "valid", rr.st, want...)
 	h.noEventsAlways(c, "LOCKT", "valid", rr)
 	h.sit("lockt")
+}
+
+// unconfirmedOrUnknownClientID returns a client ID that the server
+// must not accept for state operations: one of a record that was never
+// confirmed, or one that was never issued.
+func (h *hist) unconfirmedOrUnknownClientID(c *client) uint64 {
+	id := h.rng.Uint64()
+	for _, r := range c.regs {
+		if r != c.cur && h.chance(70) {
+			id = r.clientID
+		}
+	}
+	return id
+}
+
+// staleClientID40 sends RENEW and RELEASE_LOCKOWNER with a client ID
+// that is not that of a confirmed record.
+func (h *hist) staleClientID40(c *client, loKey string) {
+	id := h.unconfirmedOrUnknownClientID(c)
+	out := h.w.call("RENEW", &nfsv4.Compound4args{Tag: "renew", Argarray: []nfsv4.NfsArgop4{
+		&nfsv4.NfsArgop4_OP_RENEW{Oprenew: nfsv4.Renew4args{Clientid: id}},
+	}})
+	if !out.panicked {
+		h.note("%s RENEW clientid=%x (unconfirmed-or-unknown) -> %s", c, id, stName(out.res.Status))
+		h.expect(c, "RENEW", "unconfirmed-or-unknown-clientid", out.res.Status, nfsv4.NFS4ERR_STALE_CLIENTID)
+	}
+	rr := h.send(c, fmt.Sprintf("RELEASE_LOCKOWNER owner=%s clientid=%x (unconfirmed-or-unknown)", loKey, id), fhNone, 0,
+		&nfsv4.NfsArgop4_OP_RELEASE_LOCKOWNER{OpreleaseLockowner: nfsv4.ReleaseLockowner4args{
+			LockOwner: nfsv4.LockOwner4{Clientid: id, Owner: []byte(loKey)},
+		}})
+	if rr.ok {
+		h.expect(c, "RELEASE_LOCKOWNER", "unconfirmed-or-unknown-clientid", rr.st, nfsv4.NFS4ERR_STALE_CLIENTID)
+		h.noEventsAlways(c, "RELEASE_LOCKOWNER", "unconfirmed-or-unknown-clientid", rr)
+		h.sit("stale-clientid-refused")
+	}
 }
